@@ -35,7 +35,9 @@ CONF = dict(
           'buffer (9187..10000 bytes: MSG_TRUNC), client.badlocal (local address that is no IP address: an error, nothing sent), client.ctxdone (context already cancelled, deadline in the past, deadline passing '
           'between the tries of an interleaved-mode call: a measurement is reported only if a datagram was accepted), keyless NTS forgeries (identifier copied from the request, '
           'authenticator with nonce 16 and ciphertext length 0 - padded, followed by another field, or too short to be parsed -, ciphertext of 1..15 bytes, nonce length 0, a '
-          'field that is only its header, a made-up 16-byte tag); svc.authmodes (the real service\'s loadConfig / createClocks, run through harness/svclib and the wiring hook of /repo, on configuration '
+          'field that is only its header, a made-up 16-byte tag), responses whose receive and transmit time are each within 2^31 s of the request but more than 2^31 s apart from each other (30 years ahead / 40 years '
+          'back and next to the edges of the window, both orders), scion.twopath (MeasureClockOffsetSCION with two clients and two paths, each with a next hop of its own: one path '
+          'rejected at once and the genuine response on the other 300 ms later, both genuine, both rejected: a reported offset lies between the accepted measurements); svc.authmodes (the real service\'s loadConfig / createClocks, run through harness/svclib and the wiring hook of /repo, on configuration '
           'texts with every list of up to three auth_modes over "nts", "spao" and an unknown string - every order, repetitions, the empty list - with and without a SCION daemon '
           'address, for a SCION host with an IP reference clock, a SCION reference clock and a SCION peer and for an IP-only host: the authentication flags and the NTS-KE fetcher '
           'of every client of every clock; skipped with a NOTE if the checkout has no wiring hook). Observed: the error of every exchange (call logger), the four timestamps combined (recording filter), the offset and error '
@@ -74,5 +76,5 @@ CONF = dict(
                  'after a call comes from the pool before it, a key exchange, or a datagram that passed all of these'),
     timeout_quick=900, timeout_thorough=3000,
     no_floor=['svc.authmodes'],
-    min_cases={'client.badlocal': 1, 'client.ctxdone': 3, 'ip.hist': 479, 'ip.late': 12, 'ip.nofilter': 28, 'ip.servers': 64, 'ip6.hist': 11, 'scion.addrtype': 28, 'scion.allfail': 1, 'scion.allfailauth': 1, 'scion.auth': 160, 'scion.hist': 160, 'scion.late': 8, 'scion.lateauth': 3, 'scion.nofilter': 28, 'scion.nts': 38, 'scion.ntsauth': 40, 'scion.servers': 64},
+    min_cases={'client.badlocal': 1, 'client.ctxdone': 3, 'ip.hist': 479, 'ip.late': 11, 'ip.nofilter': 28, 'ip.servers': 64, 'ip6.hist': 12, 'scion.addrtype': 28, 'scion.allfail': 1, 'scion.allfailauth': 1, 'scion.auth': 160, 'scion.hist': 160, 'scion.late': 8, 'scion.lateauth': 3, 'scion.nofilter': 28, 'scion.nts': 37, 'scion.ntsauth': 40, 'scion.servers': 64, 'scion.twopath': 3},
 )
